@@ -27,13 +27,15 @@ import numpy as np
 from harness.core import import_cuqi, quiet
 from harness.props import c01
 
-NAME_POOL = c01.NAME_POOL + ["q", "q2", "ln", "rg", "p1", "p2", "p3", "p4", "c1", "c2", "c3", "mp"]          # ids of variable names on the model side
+NAME_POOL = c01.NAME_POOL + ["q", "q2", "ln", "rg", "p1", "p2", "p3", "p4", "c1", "c2", "c3", "mp",
+                             "s9", "q3", "q4", "gs", "gc", "gn", "gb", "gp"]          # ids of variable names on the model side
 ATTR_KEY_BASE = 100                                            # ids of attribute-named conditioning variables
 FAMS = ["Gaussian", "Normal", "Laplace", "GMRF", "LMRF", "Gamma", "Lognormal", "RegularizedGaussian"]
 
 # benign caches: python attribute names that may be written on a pre-existing object
 BENIGN_ANY = {"_variable_name"}                 # a geometry's label
-BENIGN_FILL = {"_mutable_vars"}                 # lazily cached once; may appear, must not change afterwards
+BENIGN_FILL = {"_mutable_vars", "_coefs", "_coefs_inverse"}   # lazily cached once (absent/None -> value); must not change afterwards
+                                                # (`_coefs*`: KLExpansion's decay coefficients, a function of num_modes/decay_rate)
 
 
 # ============================================================================ tracing
@@ -186,8 +188,25 @@ def snapshot(root, skip_name_of_inner=False):
                 if k in BENIGN_ANY:
                     continue
                 if k in BENIGN_FILL:
-                    fill[(oid, k)] = walk(v, depth + 1)
+                    if v is not None:
+                        fill[(oid, k)] = walk(v, depth + 1)
                     continue
+                if k == "_cov" and "_sqrtprec" in vars(o):
+                    # Gaussian.compute_cov() (used by cdf) caches the full covariance in `_cov`: None -> matrix, or a
+                    # scalar / vector covariance -> the same covariance as a full matrix.  Compared as a matrix.
+                    if v is None:
+                        d[k] = "UNSET-LAZY"; continue
+                    try:
+                        n = o._geometry.par_dim
+                        vv = np.asarray(v, dtype=float)
+                        if vv.size == 1:
+                            vv = float(vv.ravel()[0]) * np.eye(n)
+                        elif vv.ndim == 1:
+                            vv = np.diag(vv)
+                        d[k] = ("cov-matrix", hashlib.sha1(np.ascontiguousarray(np.asarray(vv)).tobytes()).hexdigest())
+                        continue
+                    except Exception:  # noqa
+                        pass
                 if k == "_Gaussian" and type(o).__name__ == "Lognormal":
                     continue                      # shared Gaussian, re-synchronised on every access
                 if k == "_name" and inner_gauss:
@@ -210,6 +229,8 @@ def snap_diff(a, b, path="root", out=None):
         return out
     if a == "UNSET-LAZY" and isinstance(b, tuple) and len(b) == 3 and b[0] == "obj" and str(b[1]).startswith("_DefaultGeometry"):
         return out            # lazily inferred default geometry (function of the immutable mutable-variable lengths)
+    if a == "UNSET-LAZY" and path.endswith("._cov") and isinstance(b, tuple) and b and b[0] == "cov-matrix":
+        return out            # covariance computed on demand from the square-root precision
     if type(a) != type(b):
         out.append(path); return out
     if isinstance(a, tuple) and isinstance(b, tuple) and (len(a) != len(b) or (a and b and a[0] != b[0] and isinstance(a[0], str) and isinstance(b[0], str))):
@@ -276,7 +297,9 @@ def behaviour(cuqi, o, probes, vals=None, maxprod=0):
     out["kind"] = L
     if isinstance(o, Model):
         out["args"] = list(o._non_default_args)
-        out["fwd"] = [_canon(_try(lambda p=p: o.forward(np.asarray(p["__modelinput__"], dtype=float)))) for p in probes]
+        out["fwd"] = [_canon(_try(lambda p=p, key=key: o.forward(np.asarray(p[key], dtype=float))))
+                      for p in probes for key in ("__modelinput__", "__modelinputB__") if key in p]
+        out["geoms"] = (type(o.domain_geometry).__name__, type(o.range_geometry).__name__)
         return out
     names = _try(lambda: list(o.get_parameter_names()))
     out["names"] = names if not isinstance(names, Exception) else _canon(names)
@@ -285,6 +308,10 @@ def behaviour(cuqi, o, probes, vals=None, maxprod=0):
         out["name"] = "exc" if isinstance(nm, Exception) else nm
     if L in ("d", "n", "r", "P", "M"):
         out["dim"] = _canon(_try(lambda: o.dim))
+    if L in ("d", "n", "r"):
+        # geometry class / shapes (a model application must not re-wire the geometry of its argument)
+        g = _try(lambda: o.geometry)
+        out["geom"] = "exc" if isinstance(g, Exception) else (type(g).__name__, str(getattr(g, "par_shape", None)), str(getattr(g, "fun_shape", None)))
     if isinstance(names, Exception):
         return out
     ev = []
@@ -303,17 +330,48 @@ def behaviour(cuqi, o, probes, vals=None, maxprod=0):
         st = np.random.get_state()
         try:
             np.random.seed(1234)
-            out["sample"] = _canon(_try(lambda: np.asarray(o.sample(2))))
+            smp = _try(lambda: o.sample(2))
+            out["sample"] = _canon(smp if isinstance(smp, Exception) else np.asarray(smp.samples if hasattr(smp, "samples") else smp))
+            out["sample_geom"] = "exc" if isinstance(smp, Exception) else type(getattr(smp, "geometry", None)).__name__
         finally:
             np.random.set_state(st)
     return out
 
 
+def fresh_compare(o, ref, xs):
+    """`o` (a fully conditioned copy) against a freshly constructed distribution with the same parameters: logd, pdf,
+    gradient at the candidate points and a seeded sample must agree (1e-9)"""
+    def same(a, b):
+        if isinstance(a, Exception) or isinstance(b, Exception):
+            return isinstance(a, Exception) and isinstance(b, Exception) and type(a) is type(b)
+        try:
+            a = np.asarray(a.samples if hasattr(a, "samples") else a, dtype=float); b = np.asarray(b.samples if hasattr(b, "samples") else b, dtype=float)
+        except Exception:  # noqa
+            return True
+        return a.shape == b.shape and bool(np.allclose(a, b, rtol=1e-9, atol=1e-11, equal_nan=True))
+    bad = []
+    for i, x in enumerate(xs):
+        for nm, f in (("logd", lambda d: d.logd(x)), ("pdf", lambda d: d.pdf(x)), ("gradient", lambda d: d.gradient(x))):
+            a, b = _try(lambda: f(o)), _try(lambda: f(ref))
+            if not same(a, b):
+                bad.append(f"{nm}@{i}: {_canon(a)[:60]} vs fresh {_canon(b)[:60]}")
+    st = np.random.get_state()
+    try:
+        np.random.seed(4321); a = _try(lambda: o.sample(2))
+        np.random.seed(4321); b = _try(lambda: ref.sample(2))
+    finally:
+        np.random.set_state(st)
+    if not same(a, b):
+        bad.append(f"sample: {_canon(a)[:60]} vs fresh {_canon(b)[:60]}")
+    return "ok" if not bad else "; ".join(bad[:3])
+
+
 # ============================================================================ model graphs -> real objects + model heap
 class World:
     """the original objects of one program, their encoding for the Lean heap model, the probes"""
-    def __init__(self, cuqi, rng, thorough):
+    def __init__(self, cuqi, rng, thorough, dense=False):
         from cuqi.distribution import JointDistribution, Gaussian, Lognormal
+        self.recipes = {}    # label -> f(env) -> freshly constructed distribution with the parameters bound in env
         from cuqi.implicitprior import RegularizedGaussian
         from cuqi.model import Model, LinearModel
         self.cuqi = cuqi
@@ -352,20 +410,29 @@ class World:
         self.vals["q2"] = [np.array([rng.randint(-3, 3) / 2.0 for _ in range(dq)]) for _ in range(2)]
         self.vals["ln"] = [np.array([rng.choice([0.5, 1.0, 2.0, 3.0]) for _ in range(dq)]) for _ in range(2)]
         self.vals["rg"] = [np.array([rng.randint(0, 4) / 2.0 for _ in range(dq)]) for _ in range(2)]
-        self.ln_cond = rng.random() < 0.6
+        variant = rng.choice(["mean", "mean", "cov", "cov", "none"])   # (both callable: cuqi cannot build the inner Gaussian)
+        self.ln_cond = variant == "mean"           # mean conditional on q
+        self.ln_covcond = variant == "cov"         # cov conditional on s9
+        self.vals["s9"] = [np.array([float(x)]) for x in rng.sample([0.5, 1.0, 2.0, 4.0], 2)]
         M1 = c01._imat(rng, dq, dq)
+        ln_mean0 = np.array([rng.randint(-2, 2) / 2.0 for _ in range(dq)])
+        ln_cov0 = float(rng.choice([0.5, 1.0, 2.0]))
+        ln_mean = (lambda q: M1 @ np.asarray(q, dtype=float).reshape(-1)) if self.ln_cond else ln_mean0
+        ln_cov = (lambda s9: float(np.asarray(s9).reshape(-1)[0]) * np.eye(dq)) if self.ln_covcond else ln_cov0 * np.eye(dq)
         with quiet():
-            if self.ln_cond:
-                self.LN = Lognormal(mean=lambda q: M1 @ np.asarray(q, dtype=float).reshape(-1), cov=float(rng.choice([0.5, 1.0, 2.0])) * np.eye(dq),
-                                    geometry=dq, name="ln")
-            else:
-                self.LN = Lognormal(mean=np.array([rng.randint(-2, 2) / 2.0 for _ in range(dq)]), cov=float(rng.choice([0.5, 1.0, 2.0])),
-                                    geometry=dq, name="ln")
+            self.LN = Lognormal(mean=ln_mean, cov=ln_cov, geometry=dq, name="ln")
+
+        def ln_fresh(env):
+            m = M1 @ np.asarray(env["q"], dtype=float).reshape(-1) if self.ln_cond else ln_mean0
+            c = (float(np.asarray(env["s9"]).reshape(-1)[0]) if self.ln_covcond else ln_cov0) * np.eye(dq)
+            return Lognormal(mean=m, cov=c, geometry=dq)
+        self.recipes["ln"] = ln_fresh
         g = len(objs); objs.append(("g", {}))
         c = len(objs); objs.append(("c", {"cmean": "n0", "ccov": "n1"}))
         self.addr["ln"] = len(objs); self.live[len(objs)] = self.LN
         objs.append(("n", {"fam": f"n{FAMS.index('Lognormal')}", "name": f"n{NAME_POOL.index('ln')}", "geom": f"r{g}",
-                           "s0": (f"f90/{NAME_POOL.index('q')}" if self.ln_cond else "n4"), "s1": "n5", "cacheG": f"r{c}"}))
+                           "s0": (f"f90/{NAME_POOL.index('q')}" if self.ln_cond else "n4"),
+                           "s1": (f"f94/{NAME_POOL.index('s9')}" if self.ln_covcond else "n5"), "cacheG": f"r{c}"}))
         self.rg_cond = rng.random() < 0.5
         M2 = c01._imat(rng, dq, dq)
         with quiet():
@@ -392,6 +459,19 @@ class World:
         self.model_probe = [np.array([rng.randint(-2, 2) for _ in range(mdim)], dtype=float) for _ in range(2)]
         self.addr["A"] = len(objs); self.live[len(objs)] = self.A
         objs.append(("A", {"args": "i" + str(len(NAME_POOL) + 5)}))
+        # a model whose DOMAIN geometry is an expansion (StepExpansion / KLExpansion), applied to a default-geometry
+        # distribution: the model must not re-wire the geometry of its argument
+        from cuqi.geometry import StepExpansion, KLExpansion
+        tgt2 = rng.choice(vs)
+        self.model_targets = {"A": tgt.name, "B": tgt2.name}
+        grid = np.linspace(0, 1, 12)
+        M5 = c01._imat(rng, 2, 12)
+        with quiet():
+            dg = StepExpansion(grid, n_steps=tgt2.dim) if rng.random() < 0.6 else KLExpansion(grid, num_modes=tgt2.dim)
+            self.B = Model(lambda zz_fun: M5 @ np.asarray(zz_fun, dtype=float).reshape(-1), range_geometry=2, domain_geometry=dg)
+        self.addr["B"] = len(objs); self.live[len(objs)] = self.B
+        objs.append(("A", {"args": "i" + str(len(NAME_POOL) + 6)}))
+        self.modelB_probe = [np.array([rng.randint(-2, 2) for _ in range(tgt2.dim)], dtype=float) for _ in range(2)]
         # ---- a factor whose mean is a callable of 3-4 arguments and whose covariance is a callable of 3 (or a constant),
         #      priors for all of them, and their joint: conditioned step by step, partial upon partial
         from cuqi.distribution import Gamma
@@ -435,12 +515,73 @@ class World:
         self.addr["J2"] = len(objs); self.live[len(objs)] = self.J2
         objs.append(("J", {"dens": "R" + ".".join(str(self.addr[x]) for x in ["mp"] + pnames + cnames)}))
         self.mp_args = (pnames, cnames)
+
+        def mp_fresh(env):
+            m = mean_fn(*[env[x] for x in pnames])
+            c = cov_val(*[env[x] for x in cnames]) if cov_fn else cconst
+            return Gaussian(mean=m, cov=c, geometry=dm)
+        self.recipes["mp"] = mp_fresh
+        # ---- dense FULL (non-triangular) matrices in all four forms: conditioned copies share `_sqrtprec` etc. with
+        #      their original, so an in-place numpy write during sampling / evaluation shows up in the original
+        self.dense = []
+        if dense:
+            dd = rng.randint(2, 4)
+            self.vals["q3"] = [np.array([rng.randint(-3, 3) / 2.0 for _ in range(dd)]) for _ in range(2)]
+
+            def full(n):
+                while True:
+                    R = c01._imat(rng, n, n) + 3.0 * np.eye(n)
+                    if abs(np.linalg.det(R)) > 0.5 and not np.allclose(R, np.tril(R)) and not np.allclose(R, R.T):
+                        return R
+            Mq = c01._imat(rng, dd, dd)
+            specs = [("gs", "sqrtprec", full(dd), True), ("gc", "sqrtcov", full(dd), True), ("gn", "sqrtprec", full(dd), False)]
+            if rng.random() < 0.5:
+                nb = rng.randint(76, 80)
+                self.vals["q4"] = [np.array([float(x)]) for x in rng.sample([-1.0, 0.5, 1.0, 2.0], 2)]
+                Bm = np.array([[rng.randint(-2, 2) for _ in range(nb)] for _ in range(nb)], dtype=float)
+                spd = Bm @ Bm.T / nb + 2.0 * np.eye(nb)
+                specs += [("gb", "cov", spd, "big"), ("gp", "prec", spd.copy(), "big")]
+            for lab, form, Mx, cond in specs:
+                n = Mx.shape[0]
+                a = np.array([rng.randint(-4, 4) / 2.0 for _ in range(n)])
+                self.vals[lab] = [a, a + 0.5]
+                if cond == "big":
+                    mean = lambda q4, n=n: np.ones(n) * float(np.asarray(q4).reshape(-1)[0])
+                    par, fid = "q4", 96
+                    fresh_mean = lambda env, n=n: np.ones(n) * float(np.asarray(env["q4"]).reshape(-1)[0])
+                elif cond:
+                    mean = lambda q3, Mq=Mq: Mq @ np.asarray(q3, dtype=float).reshape(-1)
+                    par, fid = "q3", 95
+                    fresh_mean = lambda env, Mq=Mq: Mq @ np.asarray(env["q3"], dtype=float).reshape(-1)
+                else:
+                    mean = np.array([rng.randint(-2, 2) / 2.0 for _ in range(n)])
+                    par, fid = None, None
+                    fresh_mean = lambda env, m=mean: m.copy()
+                with quiet():
+                    d = Gaussian(mean=mean, **{form: Mx}, geometry=n, name=lab)
+                self.recipes[lab] = (lambda env, form=form, Mx=Mx, n=n, fm=fresh_mean: Gaussian(mean=fm(env), **{form: Mx.copy()}, geometry=n))
+                g = len(objs); objs.append(("g", {}))
+                self.addr[lab] = len(objs); self.live[len(objs)] = d
+                objs.append(("d", {"fam": "n0", "name": f"n{NAME_POOL.index(lab)}", "geom": f"r{g}",
+                                   "s0": (f"f{fid}/{NAME_POOL.index(par)}" if par else "n1"), "s1": "n2"}))
+                self.dense.append(lab)
+        # ---- which log-densities are ndarrays (decides what `_constant += …` does): observed on the originals
+        probe0 = {nm: vv[0] for nm, vv in self.vals.items()}
+        for lab, a in self.addr.items():
+            o = self.live[a]
+            if objs[a][0] in ("d", "n", "r"):
+                names = _try(lambda: list(o.get_parameter_names()))
+                if not isinstance(names, Exception) and all(k in probe0 for k in names):
+                    v = _try(lambda: o.logd(**{k: probe0[k] for k in names}))
+                    if isinstance(v, np.ndarray):
+                        objs[a][1]["arrv"] = "n1"
         self.objs = objs
         self.n0 = len(objs)
         self.probes = []
         for k in range(2):
             p = {nm: vv[k] for nm, vv in self.vals.items()}
             p["__modelinput__"] = self.model_probe[k]
+            p["__modelinputB__"] = self.modelB_probe[k]
             self.probes.append(p)
 
     def heap_text(self):
@@ -452,6 +593,7 @@ class World:
     def desc(self):
         return {"shape": self.shape, "vars": [(v.name, v.family, v.dim, {a: s.parents for a, s in v.attrs.items()}) for v in self.vs],
                 "ln_cond": self.ln_cond, "rg_cond": self.rg_cond, "model_target": self.model_target,
+                "ln_covcond": self.ln_covcond, "dense": self.dense, "model_targets": self.model_targets,
                 "mp": {"mean_args": self.mp_args[0], "cov_args": self.mp_args[1]}}
 
 
@@ -465,7 +607,11 @@ def name_id(nm):
 class Program:
     def __init__(self, cuqi, tracer, rng, thorough, idx, length=None, script=None):
         self.cuqi, self.tr, self.rng, self.idx = cuqi, tracer, rng, idx
-        self.w = World(cuqi, rng, thorough)
+        self.w = World(cuqi, rng, thorough, dense=self.dense_world)
+        self.label_of = {a: lab for lab, a in self.w.addr.items()}
+        self.meta = {}          # op index of a derived object -> (root label, values bound so far)
+        self.inplace_events = []
+        self.fresh_bad = []
         self.length = length if length is not None else rng.randint(6, 40 if thorough else 28)
         self.script = script
         self.pool = []          # (op index, python object) of objects returned by ops
@@ -473,11 +619,24 @@ class Program:
         self.impl = []          # impl-side records, aligned with ops
         self.ops_desc = []
 
+    dense_world = False
+    behave_every_op = False
     maxprod = 2            # completions: every combination of the two candidate values for <= maxprod remaining parameters
     pool_checks = 3        # derived objects re-checked after every op (None = all)
 
-    def beh(self, o):
-        return behaviour(self.cuqi, o, self.w.probes, self.w.vals, self.maxprod)
+    def beh(self, o, root=None, env=None):
+        out = behaviour(self.cuqi, o, self.w.probes, self.w.vals, self.maxprod)
+        # a fully conditioned copy must behave like a freshly constructed distribution with the same parameters
+        if root in self.w.recipes and out.get("kind") in ("d", "n") and out.get("names") == [root]:
+            ref = _try(lambda: self.w.recipes[root](env or {}))
+            if not isinstance(ref, Exception):
+                out["fresh"] = fresh_compare(o, ref, self.w.vals[root])
+        return out
+
+    def meta_of(self, ref):
+        if ref.startswith("@"):
+            return self.label_of.get(int(ref[1:])), {}
+        return self.meta.get(int(ref[1:]), (None, {}))
 
     def check_pool(self, k):
         """siblings / intermediates: derived objects must be what they were when they were returned"""
@@ -488,10 +647,20 @@ class Program:
         for km, o in items:
             if km == k:
                 continue
-            d = snap_equal(self.made[km][0], snapshot(o))
-            b1 = self.beh(o)
+            s1 = snapshot(o)
+            d = snap_equal(self.made[km][0], s1)
+            b1 = self.beh(o, *self.meta.get(km, (None, None)))
             if d or b1 != self.made[km][1]:
-                self.sibling_bad = (km, d[:3], {kk: (self.made[km][1].get(kk), b1.get(kk)) for kk in b1 if b1.get(kk) != self.made[km][1].get(kk)}, k)
+                bd = {kk: (self.made[km][1].get(kk), b1.get(kk)) for kk in b1 if b1.get(kk) != self.made[km][1].get(kk)}
+                import re
+                if d and all(re.fullmatch(r"root(\..+)?\._constant\[3\]", x) for x in d) and 0 <= k < len(self.ops_desc) \
+                        and self.ops_desc[k]["op"] == "cond":
+                    # only the BYTES of an ndarray `_constant` changed during a conditioning: candidate for the known
+                    # in-place `+=` (confirmed against the model's prediction in judge); re-baseline and go on
+                    self.inplace_events.append((k, km, d[:2], bd))
+                    self.made[km] = (s1, b1)
+                    continue
+                self.sibling_bad = (km, d[:3], bd, k)
                 return
 
     # -- references
@@ -517,7 +686,7 @@ class Program:
         ref, o = rng.choice(self.targets()) if rng.random() < 0.5 or not self.pool else rng.choice([("$%d" % k, x) for k, x in self.pool] + self.targets()[:3])
         L = letter(cuqi, o)
         if L == "A":
-            nm = self.w.model_target
+            nm = self.w.model_targets.get(self.meta_of(ref)[0], self.w.model_target)
             dref = "@%d" % self.w.addr[nm]
             dobj = self.w.live[self.w.addr[nm]]
             return ("apply", ref, o, dref, dobj)
@@ -535,7 +704,7 @@ class Program:
         elif L == "E":
             kinds = ["cond0", "logd"]
         else:
-            kinds = ["cond"] * 4 + ["logd"] * 3 + ["grad", "sample", "sample", "tolik", "tolik", "cond0", "condbad"]
+            kinds = ["cond"] * 4 + ["logd"] * 3 + ["grad", "sample", "sample1", "samplerng", "pdf", "tolik", "tolik", "cond0", "condbad", "mkjoint"]
         kind = rng.choice(kinds)
         if kind == "cond":
             if not names:
@@ -563,8 +732,15 @@ class Program:
             if kw is None or len(names) != 1:
                 return None
             return ("grad", ref, o, kw, txt)
-        if kind == "sample":
-            return ("sample", ref, o)
+        if kind in ("sample", "sample1", "samplerng"):
+            return (kind, ref, o)
+        if kind in ("pdf", "cdf"):
+            kw, txt = self.kw_for(names)
+            if kw is None or len(names) != 1:
+                return None
+            return (kind, ref, o, kw, txt)
+        if kind == "mkjoint":
+            return self.mkjoint_for(ref, o)
         if kind == "tolik":
             nm = _try(lambda: o.name)
             if isinstance(nm, Exception) or nm not in self.w.vals:
@@ -576,6 +752,32 @@ class Program:
                 return None
             return ("gibbs", ref, o, rng.randint(2, 4))
         return None
+
+    def mkjoint_for(self, ref, o, extra=None):
+        """JointDistribution(o, priors of everything o depends on, one or two unrelated originals)"""
+        w, rng = self.w, self.rng
+        names = _try(lambda: list(o.get_parameter_names()))
+        own = _try(lambda: o.name)
+        if isinstance(names, Exception) or isinstance(own, Exception):
+            return None
+        members, have, need = [(ref, o)], {own}, [n for n in names if n != own]
+        while need:
+            nm = need.pop()
+            if nm in have:
+                continue
+            a = w.addr.get(nm)
+            if a is None:
+                return None
+            d = w.live[a]
+            members.append(("@%d" % a, d)); have.add(nm)
+            need += [x for x in _try(lambda: list(d.get_parameter_names())) if x not in have]
+        unrelated = [nm for nm in [v.name for v in w.vs] + w.mp_args[0] + w.mp_args[1]
+                     if nm not in have and not isinstance(_try(lambda: w.live[w.addr[nm]].is_cond), Exception) and not w.live[w.addr[nm]].is_cond]
+        rng.shuffle(unrelated)
+        for nm in (extra if extra is not None else unrelated[:rng.randint(1, 2)]):
+            if nm not in have:
+                members.append(("@%d" % w.addr[nm], w.live[w.addr[nm]])); have.add(nm)
+        return ("mkjoint", ",".join(r for r, _ in members), [x for _, x in members])
 
     # -- execute one op on the implementation with tracing
     def execute(self, op):
@@ -594,6 +796,17 @@ class Program:
                     res = o.gradient(**op[3]) if letter(cuqi, o) == "L" else o.gradient(list(op[3].values())[0])
                 elif kind == "sample":
                     res = op[2].sample(2)
+                elif kind == "sample1":
+                    res = op[2].sample(1)
+                elif kind == "samplerng":
+                    res = op[2].sample(3, rng=np.random.RandomState(5))
+                elif kind == "pdf":
+                    res = op[2].pdf(list(op[3].values())[0])
+                elif kind == "cdf":
+                    res = op[2].cdf(list(op[3].values())[0])
+                elif kind == "mkjoint":
+                    from cuqi.distribution import JointDistribution
+                    res = JointDistribution(*op[2])
                 elif kind == "tolik":
                     res = op[2].to_likelihood(op[3])
                 elif kind == "apply":
@@ -632,7 +845,7 @@ class Program:
                 continue
             cls = letter(cuqi, o)
             item = f"{cls}.{k}"
-            if k in BENIGN_ANY or k in BENIGN_FILL:
+            if k in BENIGN_ANY or k in BENIGN_FILL or (cls == "d" and k == "_cov"):
                 esc_b.append(item)
             elif cls == "d" and k in ("_mean", "mean", "_cov", "cov", "_prec", "_sqrtprec", "_logdet", "_rank") and id(o) in self.cache_ids:
                 esc_b.append("c." + k)            # the shared Gaussian of a Lognormal (re-synchronised)
@@ -647,7 +860,7 @@ class Program:
             rec["kind"] = "G"; rec["names"] = [name_id(n) for n in res[1]]; rec["n"] = res[2]
         elif kind in ("logd",):
             rec["kind"] = "v"
-        elif kind in ("grad", "sample"):
+        elif kind in ("grad", "sample", "sample1", "samplerng", "pdf", "cdf"):
             rec["kind"] = "u"
         else:
             L = letter(cuqi, res)
@@ -722,8 +935,12 @@ class Program:
                 self.ops_txt.append(f"l:{op[1]}:{op[4]}")
             elif kind == "grad":
                 self.ops_txt.append(f"g:{op[1]}")
-            elif kind == "sample":
+            elif kind in ("sample", "sample1", "samplerng"):
                 self.ops_txt.append(f"s:{op[1]}")
+            elif kind in ("pdf", "cdf"):
+                self.ops_txt.append(f"g:{op[1]}")
+            elif kind == "mkjoint":
+                self.ops_txt.append(f"j:{op[1]}")
             elif kind == "tolik":
                 self.ops_txt.append(f"t:{op[1]}:{op[4]}")
             elif kind == "apply":
@@ -737,14 +954,21 @@ class Program:
                 n0, n1 = _try(lambda: op[2].name), _try(lambda: res.name)
                 if isinstance(n1, Exception) or n0 != n1:
                     self.name_bad.append((k, repr(n0), repr(n1)))
-            if not isinstance(res, Exception) and kind in ("cond", "tolik", "apply") and letter(cuqi, res) != "?":
+            if not isinstance(res, Exception) and kind in ("cond", "tolik", "apply", "mkjoint") and letter(cuqi, res) != "?":
                 if not any(res is x for _, x in self.pool) and not any(res is x for x in w.live.values()):
                     self.pool.append((k, res))
-                    self.made[k] = (snapshot(res), self.beh(res))
+                    if kind == "cond":
+                        root, env0 = self.meta_of(op[1])
+                        self.meta[k] = (root, {**env0, **op[3]})
+                    elif kind == "apply":
+                        self.meta[k] = (self.meta_of(op[1])[0], {})
+                    self.made[k] = (snapshot(res), self.beh(res, *self.meta.get(k, (None, None))))
+                    if self.made[k][1].get("fresh", "ok") != "ok":
+                        self.fresh_bad.append((k, self.meta[k][0], self.made[k][1]["fresh"]))
             if check_every_op and self.first_bad is None:
                 # structure of every original after every op; the (costlier) behavioural fingerprint after every op of a
                 # stepwise program, else after every third op, after any op with an escaping write, and at the end
-                self.check_originals(k, behave=(isinstance(self, StepwiseProgram) or k % 3 == 2 or bool(rec["esc"] or rec["benign"])))
+                self.check_originals(k, behave=(self.behave_every_op or kind == "apply" or k % 3 == 2 or bool(rec["esc"] or rec["benign"])))
             if check_every_op:
                 self.check_pool(k)
         if self.first_bad is None:
@@ -753,7 +977,7 @@ class Program:
         for k, o in self.pool:
             if self.sibling_bad is not None:
                 break
-            s1, b1 = snapshot(o), self.beh(o)
+            s1, b1 = snapshot(o), self.beh(o, *self.meta.get(k, (None, None)))
             d = snap_equal(self.made[k][0], s1)
             if d or b1 != self.made[k][1]:
                 self.sibling_bad = (k, d[:3], {kk: (self.made[k][1].get(kk), b1.get(kk)) for kk in b1 if b1.get(kk) != self.made[k][1].get(kk)},
@@ -761,7 +985,7 @@ class Program:
         return self
 
     def check_originals(self, k, full=False, behave=True):
-        light = set(self.w.mp_args[0] + self.w.mp_args[1]) if (not full and not isinstance(self, StepwiseProgram)) else ()
+        light = set(self.w.mp_args[0] + self.w.mp_args[1]) if (not full and not self.behave_every_op) else ()
         for lab, o in self.w.originals():
             if lab in light:
                 continue          # the plain priors of the multi-argument factor: re-checked at the end of the program
@@ -782,6 +1006,7 @@ class StepwiseProgram(Program):
     is re-checked after every op, with logd at every completion of up to 4 remaining parameters."""
     maxprod = 4
     pool_checks = None
+    behave_every_op = True
 
     def __init__(self, cuqi, tracer, rng, thorough, idx, length=None, script=None):
         super().__init__(cuqi, tracer, rng, thorough, idx, length=length, script=script)
@@ -818,8 +1043,143 @@ class StepwiseProgram(Program):
         return ("sample", ref, o) if L == "d" else None
 
 
+class RejoinProgram(Program):
+    """a density obtained by reducing a joint is put into a NEW joint (with the priors it needs and unrelated
+    originals) which is conditioned again, several times with different values: `_add_constants_to_density` then acts
+    on a copy of a density that already carries constants"""
+    pool_checks = None
+    behave_every_op = True
+
+    def __init__(self, cuqi, tracer, rng, thorough, idx, length=None, script=None):
+        super().__init__(cuqi, tracer, rng, thorough, idx, length=length, script=script)
+        if length is None:
+            self.length = rng.randint(7, 11)
+        self.stage = 0
+
+    def choose(self):
+        cuqi, rng, w = self.cuqi, self.rng, self.w
+        self.stage += 1
+        if self.stage == 1:
+            # reduce one of the joints to a single density: fix everything but one variable
+            lab = rng.choice(["J", "J2"])
+            J = w.live[w.addr[lab]]
+            names = list(J.get_parameter_names())
+            keep = rng.choice(names)
+            kw, txt = self.kw_for([n for n in names if n != keep])
+            return ("cond", "@%d" % w.addr[lab], J, kw, txt)
+        reduced = [(k, o) for k, o in self.pool if letter(cuqi, o) in ("d", "n")]
+        joints = [(k, o) for k, o in self.pool if letter(cuqi, o) == "J" and self.ops_desc[k]["op"] == "mkjoint"]
+        if self.stage == 2 or (not joints and reduced):
+            if not reduced:
+                return None
+            k, o = reduced[0]
+            self.extra = None
+            return self.mkjoint_for("$%d" % k, o)
+        if joints and rng.random() < 0.65:
+            k, Jn = rng.choice(joints)
+            names = list(Jn.get_parameter_names())
+            own = _try(lambda: reduced[0][1].name)
+            others = [n for n in names if n != own]
+            if not others:
+                return None
+            sub = others if rng.random() < 0.5 else rng.sample(others, rng.randint(1, len(others)))
+            kw, txt = self.kw_for(sub)
+            return ("cond", "$%d" % k, Jn, kw, txt) if kw is not None else None
+        cands = [(k, o) for k, o in self.pool if letter(cuqi, o) in ("d", "n", "P")]
+        if not cands:
+            return None
+        k, o = rng.choice(cands)
+        names = _try(lambda: list(o.get_parameter_names()))
+        if isinstance(names, Exception):
+            return None
+        kw, txt = self.kw_for(names)
+        return ("logd", "$%d" % k, o, kw, txt) if kw is not None else None
+
+
+class DenseProgram(Program):
+    """Gaussians given by dense FULL square-root precision / square-root covariance (small) and full covariance /
+    precision of dimension 76-80: condition, then sample (N = 1, N > 1, with rng), logd, gradient, pdf, cdf on the
+    copies and the originals; the bytes of every array reachable from every original and every derived object are
+    compared after every op"""
+    dense_world = True
+    pool_checks = None
+    behave_every_op = True
+
+    def __init__(self, cuqi, tracer, rng, thorough, idx, length=None, script=None):
+        super().__init__(cuqi, tracer, rng, thorough, idx, length=length, script=script)
+        if length is None:
+            self.length = rng.randint(10, 16)
+
+    def choose(self):
+        cuqi, rng, w = self.cuqi, self.rng, self.w
+        roots = [("@%d" % w.addr[lab], w.live[w.addr[lab]]) for lab in w.dense]
+        derived = [("$%d" % k, o) for k, o in self.pool]
+        ref, o = rng.choice(derived * 2 + roots) if derived else rng.choice(roots)
+        names = _try(lambda: list(o.get_parameter_names()))
+        if isinstance(names, Exception) or letter(cuqi, o) not in ("d",):
+            return None
+        if len(names) > 1:
+            if rng.random() < 0.8:
+                kw, txt = self.kw_for(names[:-1])
+                return ("cond", ref, o, kw, txt)
+            kw, txt = self.kw_for(names)
+            return ("logd", ref, o, kw, txt)
+        big = _try(lambda: o.dim) not in (1, 2, 3, 4)
+        kind = rng.choice(["sample", "sample1", "samplerng", "sample", "sample1", "logd", "grad", "pdf"] + ([] if big else ["cdf"]))
+        if kind.startswith("sample"):
+            return (kind, ref, o)
+        kw, txt = self.kw_for(names)
+        return (kind, ref, o, kw, txt)
+
+
+class InterleaveProgram(Program):
+    """two or three LIVE siblings of a distribution that owns an internal helper object (Lognormal's shared Gaussian,
+    RegularizedGaussian's inner Gaussian) or shares arrays with its original, evaluated in interleaved order
+    a, b, a, b, … (logd, pdf, gradient, sample); every result is compared with a freshly constructed distribution"""
+    dense_world = True
+    pool_checks = None
+    behave_every_op = True
+
+    def __init__(self, cuqi, tracer, rng, thorough, idx, length=None, script=None):
+        super().__init__(cuqi, tracer, rng, thorough, idx, length=length, script=script)
+        if length is None:
+            self.length = rng.randint(9, 14)
+        self.stage = 0
+        cands = [lab for lab in ["ln", "rg", "mp"] + [x for x in self.w.dense if x in ("gs", "gc")]
+                 if len(self.w.live[self.w.addr[lab]].get_parameter_names()) > 1]
+        self.root = rng.choice(cands) if cands else "ln"
+        self.nsib = rng.choice([2, 2, 3])
+
+    def choose(self):
+        cuqi, rng, w = self.cuqi, self.rng, self.w
+        self.stage += 1
+        root = w.live[w.addr[self.root]]
+        names = list(root.get_parameter_names())
+        if self.stage <= self.nsib and len(names) > 1:
+            # sibling number `stage`: all conditioning variables fixed, values differ between siblings
+            which = [0, 1, None][self.stage - 1]
+            kw, txt = self.kw_for(names[:-1], which=which)
+            return ("cond", "@%d" % w.addr[self.root], root, kw, txt)
+        sibs = [(k, o) for k, o in self.pool if letter(cuqi, o) in ("d", "n", "r")]
+        if not sibs:
+            return None
+        k, o = sibs[(self.stage) % len(sibs)]          # round robin: a, b, (c,) a, b, …
+        onames = _try(lambda: list(o.get_parameter_names()))
+        if isinstance(onames, Exception) or len(onames) != 1:
+            return None
+        kind = rng.choice(["logd", "logd", "pdf", "grad", "sample", "sample1"])
+        if kind.startswith("sample"):
+            return (kind, "$%d" % k, o)
+        kw, txt = self.kw_for(onames)
+        return (kind, "$%d" % k, o, kw, txt)
+
+
+PROGRAM_CLASSES = {0: Program, 1: StepwiseProgram, 2: RejoinProgram, 3: DenseProgram, 4: InterleaveProgram}
+CLASS_NAMES = {Program: None, StepwiseProgram: "stepwise", RejoinProgram: "rejoin", DenseProgram: "dense", InterleaveProgram: "interleave"}
+
+
 # ============================================================================ shrinking (failing-input search)
-def op_from_text(p, txt, remap, old_index):
+def op_from_text(p, txt, remap, old_index, kind=None):
     """rebuild an op of a recorded program on a fresh world (same seed => same objects)"""
     f = txt.split(":")
     def resolve(r):
@@ -842,6 +1202,12 @@ def op_from_text(p, txt, remap, old_index):
             else:
                 kw[c01.UNKNOWN] = np.array([1.0])
         return kw, t
+    if f[0] == "j":
+        members = [resolve(r) for r in f[1].split(",")]
+        remap[old_index] = len(p.ops_txt)
+        if any(o is None for _, o in members):
+            return None
+        return ("mkjoint", ",".join(r for r, _ in members), [o for _, o in members])
     ref, o = resolve(f[1])
     remap[old_index] = len(p.ops_txt)
     if o is None:
@@ -853,9 +1219,9 @@ def op_from_text(p, txt, remap, old_index):
     if f[0] == "g":
         names = _try(lambda: list(o.get_parameter_names()))
         kw, t = p.kw_for(names, which=0) if not isinstance(names, Exception) else (None, None)
-        return ("grad", ref, o, kw, t) if kw else None
+        return (kind if kind in ("pdf", "cdf") else "grad", ref, o, kw, t) if kw else None
     if f[0] == "s":
-        return ("sample", ref, o)
+        return (kind if kind in ("sample1", "samplerng") else "sample", ref, o)
     if f[0] == "t":
         nm = _try(lambda: o.name)
         return ("tolik", ref, o, p.w.vals[nm][int(f[2]) - 1], int(f[2])) if nm in p.w.vals else None
@@ -871,9 +1237,10 @@ def shrink(ctx, p, k, thorough, also=()):
     object) were derived by; else the prefix"""
     def deps(j, acc):
         acc.add(j)
-        for r in p.ops_txt[j].split(":")[1:3]:
-            if r.startswith("$"):
-                deps(int(r[1:]), acc)
+        for field in p.ops_txt[j].split(":")[1:3]:
+            for r in field.split(","):
+                if r.startswith("$") and r[1:].isdigit():
+                    deps(int(r[1:]), acc)
         return acc
     first = deps(k, set())
     for j in also:
@@ -883,12 +1250,12 @@ def shrink(ctx, p, k, thorough, also=()):
         rng = random.Random(f"C11-{ctx.seed}-{p.idx}")
         try:
             q = type(p)(p.cuqi, p.tr, rng, thorough, p.idx,
-                        script=[(lambda prog, j=j: op_from_text(prog, p.ops_txt[j], remap, j)) for j in subset])
+                        script=[(lambda prog, j=j: op_from_text(prog, p.ops_txt[j], remap, j, p.ops_desc[j]["op"])) for j in subset])
             q.run()
         except Exception:  # noqa
             p.tr.stop()
             continue
-        if q.first_bad is not None or q.sibling_bad is not None:
+        if q.first_bad is not None or q.sibling_bad is not None or q.fresh_bad:
             return {"ops": [p.ops_txt[j] for j in subset], "reproduced": True, "n_ops": len(subset)}
     return {"ops": p.ops_txt[:k + 1], "reproduced": False, "n_ops": k + 1}
 
@@ -925,7 +1292,12 @@ def compare(m, i, opkind):
         if m["esc"] != i["esc"]:
             diffs.append(f"escaping writes {m['esc']} vs {i['esc']}")
         return diffs
-    if opkind in ("grad", "sample"):
+    m = dict(m)
+    if "alloc" in m:
+        m["alloc"] = m["alloc"].replace("a", "")          # numpy array objects are not traced on the implementation side
+    if "esc" in m:
+        m["esc"] = [e for e in m["esc"] if not e.endswith("_constant[...]")]   # in-place ndarray writes: judged by the oracle
+    if opkind in ("grad", "sample", "sample1", "samplerng", "pdf", "cdf"):
         # only allocation / write behaviour is compared (families refuse gradients / sampling for their own reasons)
         if i["kind"] != "e" and m["alloc"] != i["alloc"]:
             diffs.append(f"allocations {m['alloc']} vs {i['alloc']}")
@@ -952,15 +1324,19 @@ def compare(m, i, opkind):
 
 
 MODEL_BENIGN = {"g._variable_name", "d._mutable_vars", "n._mutable_vars", "r._mutable_vars", "P._mutable_vars", "M._mutable_vars",
-                "c._mean", "c.mean", "c._cov", "c.cov", "c._prec", "c._sqrtprec", "c._logdet", "c._rank", "inner._name"}
+                "c._mean", "c.mean", "c._cov", "c.cov", "c._prec", "c._sqrtprec", "c._logdet", "c._rank", "inner._name",
+                "d._cov",                   # Gaussian.compute_cov() cache (content compared as a matrix by the snapshot)
+                "g._coefs", "g._coefs_inverse"}
 
 
-def run_programs(ctx, cuqi, tracer, n, thorough, n_step=0):
+def run_programs(ctx, cuqi, tracer, n, thorough, n_step=0, n_rejoin=0, n_dense=0, n_inter=0):
     progs = []
-    for idx in list(range(n)) + [100000 + i for i in range(n_step)]:
+    idxs = list(range(n)) + [100000 + i for i in range(n_step)] + [200000 + i for i in range(n_rejoin)] \
+        + [300000 + i for i in range(n_dense)] + [400000 + i for i in range(n_inter)]
+    for idx in idxs:
         rng = random.Random(f"C11-{ctx.seed}-{idx}")
         try:
-            p = (StepwiseProgram if idx >= 100000 else Program)(cuqi, tracer, rng, thorough, idx)
+            p = PROGRAM_CLASSES[idx // 100000](cuqi, tracer, rng, thorough, idx)
         except Exception as e:  # noqa  (world construction refused: not a case)
             ctx.note(f"program {idx} could not be built: {type(e).__name__}: {str(e)[:80]}")
             continue
@@ -983,7 +1359,7 @@ def run_programs(ctx, cuqi, tracer, n, thorough, n_step=0):
     hist = {}
     for p, out in zip(progs, outs):
         desc = {"program": p.idx, "graph": p.w.desc(), "ops": p.ops_desc}
-        ctx.case("program:" + ("stepwise" if isinstance(p, StepwiseProgram) else p.w.shape),
+        ctx.case("program:" + (CLASS_NAMES[type(p)] or p.w.shape),
                  {"program": p.idx, "seed": ctx.seed, "graph": p.w.desc(), "n_ops": len(p.ops_txt)})
         for r in p.impl:
             hist[r["kind"][0]] = hist.get(r["kind"][0], 0) + 1
@@ -1035,6 +1411,28 @@ def judge(ctx, p, out, desc):
                  {"structure": sd, "behaviour": bd},
                  f"the object returned by op #{k} was altered by op #{kalt} ({aop}) on another object (sibling / intermediate aliasing)")
         okey = okey or okey2
+    for (k, km, sd, bd) in p.inplace_events:
+        predicted = k < len(recs) and any(e.endswith("_constant[...]") for e in recs[k].get("esc", []))
+        if predicted:
+            kk = "alter-constant:ndarray-inplace:cond"
+            ctx.disagree(kk, {**desc, "op_index": k}, "model (faithful): `ndarray += x` writes into the array shared with the density the copy was made from",
+                         {"structure": sd}, "in-place `_constant +=` on an ndarray constant")
+        else:
+            kk = f"sibling:{p.ops_desc[k]['op']}:constant-array"
+            if kk not in ctx.c11_shrunk:
+                ctx.c11_shrunk[kk] = shrink(ctx, p, k, ctx.tier == "thorough", also=(km,))
+        ctx.fail(kk, {**desc, "shrunk": ctx.c11_shrunk.get(kk), "derived_by_op": km, "altered_by_op": k, "altering_op": p.ops_desc[k]},
+                 "the `_constant` of a density is not changed by conditioning another object",
+                 {"structure": sd, "behaviour": bd},
+                 f"the ndarray `_constant` of the density returned by op #{km} was modified in place by op #{k}")
+        okey = okey or kk
+    for (k, root, detail) in p.fresh_bad[:1]:
+        kk = f"fresh:{root}:{p.ops_desc[k]['op']}"
+        if kk not in ctx.c11_shrunk:
+            ctx.c11_shrunk[kk] = shrink(ctx, p, k, ctx.tier == "thorough")
+        ctx.fail(kk, {**desc, "shrunk": ctx.c11_shrunk.get(kk), "op": p.ops_desc[k]}, "conditioned copy == freshly constructed distribution with the same parameters",
+                 detail, f"the copy of '{root}' returned by op #{k} does not behave like a fresh distribution (stale shared helper / array)")
+        okey = okey or kk
     for (k, n0, n1) in p.name_bad[:1]:
         okey3 = f"name:{p.ops_desc[k]['op']}"
         ctx.fail(okey3, {**desc, "op": p.ops_desc[k]}, f"name {n0}", n1, "a conditioned copy does not keep the random-variable name of its original")
@@ -1266,7 +1664,8 @@ def run(ctx):
     tracer.install()
     try:
         n = 150 if not thorough else 150 * ctx.scale
-        run_programs(ctx, cuqi, tracer, n, thorough, n_step=(40 if not thorough else 40 * ctx.scale))
+        sc = 1 if not thorough else ctx.scale
+        run_programs(ctx, cuqi, tracer, n, thorough, n_step=30 * sc, n_rejoin=20 * sc, n_dense=20 * sc, n_inter=20 * sc)
         sampler_scenarios(ctx, cuqi, tracer, thorough)
         deep_chains(ctx, cuqi)
     finally:
